@@ -493,3 +493,32 @@ Proof.
     + pose proof (proj2 Bn (proj1 B1 eq_refl)). discriminate.
     + pose proof (proj2 B1 (proj1 Bn eq_refl)). discriminate.
 Qed.
+
+(* ============================================================================================== *)
+(* 5. the mirror's verdict is exact for every sound and complete LP oracle                         *)
+(* ============================================================================================== *)
+Definition lp_sound_spec (lp : list (list N) -> list N -> option (list Q * list (N * Q))) : Prop :=
+  forall prefs axis vs xs, lp prefs axis = Some (vs, xs) -> lp_sat prefs axis vs xs.
+
+Theorem eucl_algo_verdict_exact lp alts orders :
+  lp_sound_spec lp -> lp_complete lp -> wf_profile alts orders -> orders <> [] -> alts <> [] ->
+  eucl_algo_verdict lp alts orders = eucl_decide alts orders.
+Proof.
+  intros Hs Hc Hwf Ho Ha. pose proof Hwf as (Hnd & _ & Hrk). unfold eucl_algo_verdict.
+  destruct (eucl_algo lp alts orders) as [[[vs xs]|]|e] eqn:E.
+  - symmetry. apply (eucl_decide_correct alts orders Hnd Hrk).
+    eapply planted_sound. eapply (eucl_algo_sound lp Hs); eassumption.
+  - destruct (eucl_decide alts orders) eqn:Ed; [|reflexivity]. exfalso.
+    apply (eucl_decide_correct alts orders Hnd Hrk) in Ed.
+    destruct (eucl_algo_complete lp alts orders Hc Hwf Ho Ha Ed) as (y & Ey). congruence.
+  - exfalso. exact (eucl_algo_no_error lp alts orders Hwf Ho Ha e E).
+Qed.
+
+Corollary eucl_algo_iff lp alts orders :
+  lp_sound_spec lp -> lp_complete lp -> wf_profile alts orders -> orders <> [] -> alts <> [] ->
+  ((exists y, eucl_algo lp alts orders = Ok (Some y)) <-> Euclidean orders).
+Proof.
+  intros Hs Hc Hwf Ho Ha. split.
+  - intros ([vs xs] & E). eapply planted_sound. eapply (eucl_algo_sound lp Hs); eassumption.
+  - now apply eucl_algo_complete.
+Qed.
